@@ -254,6 +254,51 @@ def run_wide_huge(prop, res, tier):
                               {"text_head": t[:120], "siblings": n, "impl": a[:300]})
 
 
+HALF_HEADS_BODY = ["use", "use a", "use a,", "use a, b", "use #(a,", "let", "let a", "let a =", "let a:", "let assert", "let assert Ok(", "case", "case v", "case v {",
+                   "case v { 1", "case v { 1 ->", "case v { 1 if", "case v { a |", "fn", "fn(", "fn(a", "fn(a) ->", "f(", "f(a:", "[", "[1, ..", "#(", "<<", "<<1:", "v |>", "1 +", "!", "-",
+                   "assert", "todo as", "panic as", "v.", "R(..v,", "{", "use a <-", "use <-", "let a = case", "let #(", "let [", "let <<"]
+HALF_HEADS_TOP = ["import", "import a/", "import a.{", "import a.{type", "import a as", "type", "type T", "type T(", "type T {", "type T { V(", "type T { V(a:", "type T =", "const", "const a", "const a:",
+                  "const a =", "const a = [", "pub", "pub opaque", "fn", "fn f", "fn f(", "fn f(a:", "fn f(a) ->", "fn f() -> #(", "@external(", "@external(erlang,", "@"]
+FLAT_RUNS = ["!", "-", "todo as", "panic as", "fn() ->", "x", "1", "\"s\"", "x,", "x.", "+", "x(1)", "[1]", "A", "->", ":", "|", "x =", "A(1)", "1.0", "_", "..", "#", "<-x", "as"]
+
+
+def halftyped_run_texts(tier):
+    """a half-typed construct followed by a long FLAT run of one repeated token group (more tokens than any look-ahead budget of the
+    parser), then the closing brace and another definition: what an editor holds while a line is being typed above existing code"""
+    after = "\n}\n\npub fn after() {\n  2\n}\n"
+    out = []
+    sizes = (1100,) if tier == "quick" else (1100, 2100, 5000)
+    for n in sizes:
+        for run in FLAT_RUNS:
+            body = (" " + run) * n
+            for h in HALF_HEADS_BODY:
+                out.append("pub fn w(v) {\n  " + h + body + after)
+            for h in HALF_HEADS_TOP:
+                out.append(h + body + "\n\npub fn after() {\n  2\n}\n")
+    return out
+
+
+def run_halftyped_runs(prop, res, tier):
+    texts = halftyped_run_texts(tier)
+    reqs = ["lossless\t" + hexs(t) for t in texts]
+    chunks = [reqs[i::common.NCPU] for i in range(common.NCPU)]
+    tchunks = [texts[i::common.NCPU] for i in range(common.NCPU)]
+    outs = common.parallel_map(lambda c: common.run_lines(common.HARNESS_BIN, c, timeout=1200), chunks, workers=common.NCPU)
+    res.cov["evaluations"] += len(reqs)
+    res.cov["halftyped_runs"] = f"{len(texts)} texts: {len(HALF_HEADS_BODY)}+{len(HALF_HEADS_TOP)} half-typed heads x {len(FLAT_RUNS)} flat runs"
+    for ts, (lo, rc) in zip(tchunks, outs):
+        if len(lo) != len(ts):
+            t = ts[min(len(lo), len(ts) - 1)]
+            res.add_violation(prop + "/abort/halftyped-run", f"the process ended on a half-typed construct followed by a long flat run (rc={rc})", {"text_head": t[:160], "text_len": len(t)})
+            continue
+        for t, a in zip(ts, lo):
+            if a.startswith("FAIL") and prop == "C01":
+                res.add_violation("C01/lossless/" + a.split(" ")[1], f"tree does not reproduce a half-typed construct followed by a long flat run: {a[:200]}", {"text": t, "impl": a[:300]})
+            elif a.startswith("PANIC") and prop == "C02":
+                res.add_violation(classify_c02(t, canon_panic(a)),
+                                  f"parse_module panicked on {t[:40]!r}... (a half-typed construct followed by {t.count(' ')} more tokens): {a[:200]}", {"text": t, "impl": a[:300]})
+
+
 def dist(labels):
     d = {}
     for l in labels:
@@ -275,8 +320,13 @@ def run_deep(res, tier, want_model=True):
     if tier == "thorough":
         cases += [("[", 5000), ("(", 5000), ("fn(", 1000), ("case x {", 500)]
     cases += [("[", 30000), ("[]", 300000)]
+    cases += [("!x", 400), ("!x", 520), ("..x", 520), ("todo as", 520)]
     for op, n in cases:
         text = "fn f() { " + (op + " ") * n
+        if op in ("!x", "..x", "todo as"):
+            # well-formed, not at the end of the text: directly nested prefix expressions (the recursion returns with two
+            # look-aheads a level and no bump)
+            text = {"!x": "fn f() { " + "! " * n + "x }", "..x": "fn f() { [1, " + ".. " * n + "x] }", "todo as": "fn f() { " + "todo as " * n + "\"s\" }"}[op] + "\nfn g() { 1 }\n"
         if op == "[]":
             # properly closed nesting: no look-ahead storm, only recursion depth
             text = "fn f() { " + "[ " * n + "] " * n + "}"
@@ -293,7 +343,11 @@ def run_deep(res, tier, want_model=True):
             if impl.startswith("PANIC") or model.startswith("PANIC"):
                 if a != b:
                     res.disagreements.append((req[:80], impl, model))
-        if impl.startswith("PANIC stuck"):
+        if impl.startswith("PANIC stuck") and op in ("!x", "..x", "todo as"):
+            res.add_violation("C02/stuck/nested-prefix-unwinding",
+                              f"parser is stuck: look-ahead fuel exhausted returning from {n} directly nested prefix expressions `{op}` in a well-formed text",
+                              {"text_hex": hexs(text), "opener": op, "count": n, "impl": impl, "model": model})
+        elif impl.startswith("PANIC stuck"):
             res.add_violation("C02/stuck/unclosed-openers-at-eof",
                               f"parser is stuck: look-ahead fuel exhausted unwinding {n} unclosed `{op}` at end of input",
                               {"text_hex": hexs(text), "opener": op, "count": n, "impl": impl, "model": model})
@@ -306,9 +360,14 @@ def run_deep(res, tier, want_model=True):
         res.cov["samples"].append({"deep": f"{op} x {n}", "impl": impl, "model": model})
 
 
+PREFIX_RUN = re.compile(r"(?:(?:!|-|\.\.|#|todo\s+as|panic\s+as)\s*){300,}")
+
+
 def classify_c02(text, impl):
     if impl.startswith("PANIC stuck") and unclosed_openers(text) >= 100:
         return "C02/stuck/unclosed-openers-at-eof"
+    if impl.startswith("PANIC stuck") and PREFIX_RUN.search(text):
+        return "C02/stuck/nested-prefix-unwinding"
     return "C02/panic/" + re.sub(r"[^A-Za-z0-9_.:/-]+", "_", impl[6:60])
 
 
@@ -343,6 +402,7 @@ def run_c01_c02(prop, res, tier, seed):
     if prop == "C02":
         run_deep(res, tier)
     run_wide_huge(prop, res, tier)
+    run_halftyped_runs(prop, res, tier)
     res.cov["distinct_nontrivial"] = len(distinct)
     res.cov["input_distribution"] = dist([l for l, _ in cases])
     res.cov["rule"] = ("corpus (test_data, fixtures of the repository's tests) and every ~40th prefix; all sequences over 26 token-class "
